@@ -1,6 +1,7 @@
 import NeatviVerif.Drive.Common
 import NeatviVerif.Drive.C16
 import NeatviVerif.Drive.Ren
+import NeatviVerif.Drive.Lbuf
 /-!
 Line-protocol driver.  Reads case lines (input + the implementation's observables, as printed by
 the C harnesses) on stdin; for every line recomputes the model's observables and evaluates the
@@ -19,6 +20,10 @@ def judge (stream : String) (kv : KV) : Option Verdict :=
   | "ren17" => some (RenD.judge 17 kv)
   | "ren18" => some (RenD.judge 18 kv)
   | "shape" => some (RenD.judgeShape kv)
+  | "lops04" => some (LbufD.judgeLops 4 kv)
+  | "lops02" => some (LbufD.judgeLops 2 kv)
+  | "rdwr01" => some (LbufD.judgeRdwr 1 kv)
+  | "rdwr03" => some (LbufD.judgeRdwr 3 kv)
   | _ => none
 
 partial def loop (h : IO.FS.Stream) (limit : Nat) (ln : Nat) (accs : List (String × Acc)) : IO (List (String × Acc)) := do
